@@ -11,7 +11,7 @@ use std::io;
 use std::panic::{catch_unwind, AssertUnwindSafe};
 use std::sync::{Arc, Mutex, MutexGuard};
 
-pub use std::thread::{current, sleep, yield_now, Thread, ThreadId};
+pub use std::thread::{available_parallelism, current, panicking, sleep, yield_now, Result, Thread, ThreadId};
 
 thread_local! {
     pub static SIM_TID: Cell<Option<u32>> = const { Cell::new(None) };
@@ -490,7 +490,7 @@ where
 // ------------------------------------------------------------------------------------------
 
 pub struct ThreadRun<R> {
-    pub result: Result<R, Box<dyn Any + Send>>,
+    pub result: std::result::Result<R, Box<dyn Any + Send>>,
     pub abort: Option<Abort>,
     pub decisions: Vec<u32>,
     pub alternatives: u64,
